@@ -13,6 +13,7 @@ import importlib
 import json
 import os
 import random
+import signal
 import subprocess
 import sys
 import time
@@ -61,23 +62,34 @@ class CaseTimeout(BaseException):
 
 
 class _TimeLimit:
+    """SIGALRM based limit for one case. The alarm may fire at any bytecode boundary, also while the block is being left:
+    the handler raises only while the limit is active, and __exit__ swallows a timeout that fires while it disarms."""
+
     def __init__(self, ctx, seconds):
         self.ctx, self.seconds = ctx, seconds
+        self.active = False
 
     def __enter__(self):
-        import signal
-
         def handler(signum, frame):
-            raise CaseTimeout()
+            if self.active:
+                raise CaseTimeout()
         self.old = signal.signal(signal.SIGALRM, handler)
+        self.active = True
         signal.setitimer(signal.ITIMER_REAL, self.seconds)
         return self
 
     def __exit__(self, et, ev, tb):
-        import signal
-        signal.setitimer(signal.ITIMER_REAL, 0)
-        signal.signal(signal.SIGALRM, self.old)
-        if et is CaseTimeout:
+        late = False
+        try:
+            self.active = False
+            signal.setitimer(signal.ITIMER_REAL, 0)
+            signal.signal(signal.SIGALRM, self.old)
+        except CaseTimeout:
+            late = True
+            self.active = False
+            signal.setitimer(signal.ITIMER_REAL, 0)
+            signal.signal(signal.SIGALRM, self.old)
+        if et is CaseTimeout or (late and et is None):
             self.ctx.count('case_timeouts_skipped')
             return True
         return False
